@@ -65,3 +65,64 @@ def design_fit(x, y, xt, yt, n_test, sig_level):
   estimate = n_test * ((yt - ybar) - b * dx)
   scale = sigma * math.sqrt(n_test ** 2 / n + (n_test * dx) ** 2 / sxx + n_test)
   return estimate, float(stats.t.ppf(sig_level, n - 2)) * scale, sigma, scale
+
+
+def design_tests(x, y, n_test, sig_level, min_corr, bb_bound=3.0, dw_range=(1.5, 2.5), aa_threshold=0.2):
+  """Independent evaluation of the four design diagnostics (correlation, A/A, Brownian bridge, Durbin-Watson) from
+  the two pretest series, in plain numpy. Returns (tests, edge): tests = (corr_ok, aa_ok, bb_ok, dw_ok) with aa_ok
+  None when fewer than 3 points remain for the A/A fit; edge = True when some outcome is within rounding of flipping
+  (or the series are degenerate), in which case the caller must not judge."""
+  x = np.asarray(x, dtype=float)
+  y = np.asarray(y, dtype=float)
+  n = len(y)
+  if np.ptp(x) == 0 or np.ptp(y) == 0:
+    return None, True
+  dx, dy = x - x.mean(), y - y.mean()
+  sxx, syy, sxy = float((dx * dx).sum()), float((dy * dy).sum()), float((dx * dy).sum())
+  corr = sxy / math.sqrt(sxx * syy)
+  edge = abs(corr - min_corr) < 1e-10 or not abs(corr) < 1 - 1e-12
+  b = sxy / sxx
+  a = y.mean() - b * x.mean()
+  resid = y - a - b * x
+  ss = float((resid * resid).sum())
+  if ss <= 1e-20 * max(syy, 1e-300):
+    return None, True
+  sigma = math.sqrt(ss / (n - 2))
+  # Brownian bridge: |cumulative standardised residuals| (last one dropped) within bb_bound * sqrt(k (1 - k/n))
+  k = np.arange(1, n, dtype=float)
+  bounds = bb_bound * np.sqrt(k * (1.0 - k / n))
+  cum = np.abs(np.cumsum(resid / sigma)[:-1])
+  bb_ok = bool(np.all(cum <= bounds))
+  if float(np.min(np.abs(cum - bounds))) < 1e-9 * max(1.0, float(bounds.max())):
+    edge = True
+  # Durbin-Watson
+  d = np.diff(resid)
+  dw = float((d * d).sum()) / ss
+  dw_ok = dw_range[0] < dw < dw_range[1]
+  if min(abs(dw - dw_range[0]), abs(dw - dw_range[1])) < 1e-9:
+    edge = True
+  # A/A: hold out the last n_test points, fit on the rest, test the held-out "effect"
+  n_pre = n - n_test
+  if n_pre < 3:
+    aa_ok = None
+  else:
+    xp, yp = x[:n_pre], y[:n_pre]
+    if np.ptp(xp) == 0:
+      return None, True
+    est, cihw, sg, _ = design_fit(xp, yp, float(x[n_pre:].mean()), float(y[n_pre:].mean()), n_test, sig_level)
+    lo, hi = min(est - cihw, est + cihw), max(est - cihw, est + cihw)
+    scale = max(abs(lo), abs(hi), 1e-300)
+    if min(abs(lo), abs(hi)) < 1e-9 * scale or sg <= 0:
+      edge = True
+      aa_ok = None
+    elif lo < 0.0 < hi:
+      aa_ok = True
+    else:
+      m = min(abs(lo), abs(hi))
+      tq = cihw / sg
+      ps = sg * math.sqrt(1.0 / n_pre + 1.0 / n_test)
+      prob = 1.0 - float(stats.t.cdf(tq - m / ps, n_pre - 2)) + float(stats.t.cdf(-tq - m / ps, n_pre - 2))
+      aa_ok = prob <= aa_threshold
+      if abs(prob - aa_threshold) < 1e-9:
+        edge = True
+  return (corr >= min_corr, aa_ok, bb_ok, dw_ok), edge
